@@ -25,9 +25,12 @@ C18_RegisteredWhileConnected(X) ==
   \A r \in ToSet(X.registered) : r.t > 0 =>
      \A c \in ConnAt(X, r.t) : c.end >= r.t + B(X) => HasFrame(c, r.channel, r.t, r.t + B(X))
 \* a channel flagged for re-subscription is re-subscribed on the live connection, without waiting for a reconnect
+\* (an expired listen key is replaced: subscribing the expired stream name again does not re-subscribe the channel)
+HasFreshFrame(c, ch, stale, from, to) ==
+  \E f \in ToSet(c.frames) : f.t >= from /\ f.t <= to /\ \E k \in DOMAIN f.channels : f.channels[k] = ch /\ (stale = "" \/ f.raw[k] # stale)
 C18_ResubscribeOnLive(X) ==
   \A x \in ToSet(X.resub) : \A c \in ToSet(X.conns) :
-     (c.conn = x.conn /\ c.end >= x.t + B(X)) => HasFrame(c, x.channel, x.t, x.t + B(X))
+     (c.conn = x.conn /\ c.end >= x.t + B(X)) => HasFreshFrame(c, x.channel, x.raw, x.t, x.t + B(X))
 \* each channel message produces events only on the source registered for that channel
 C18_Routing(X) ==
   /\ \A m \in ToSet(X.data) : \A e \in ToSet(X.events) : e.n = m.n => e.source = m.channel
